@@ -10,3 +10,8 @@ import Fir.Props.C07
 #print axioms Fir.C07.opaque_div_id
 #print axioms Fir.C07.opaque_premul_id16
 #print axioms Fir.C07.opaque_div_id16
+#print axioms Fir.C07.divPixels_zero_alpha
+#print axioms Fir.C07.resampleConvolution_zero_alpha_zero_colour
+#print axioms Fir.C07.mulPixels_opaque
+#print axioms Fir.C07.divPixels_opaque
+#print axioms Fir.C07.resampleConvolution_opaque_noop
